@@ -14,11 +14,11 @@ from .interp import Module, load_module, State, Obligation, Contract, Ctx
 from .execu import Exec, Frame, parse_annotation, loop_fingerprint, assigned_names, MAX_UNROLL
 from .bufs import Buf, BufRef, BufView, BufCopy, FIELD
 
-BUILTINS = {'arange', 'atleast_1d', 'len', 'range', 'enumerate', 'min', 'max', 'abs', 'int', 'float', 'bool', 'empty', 'zeros', 'ones',
+BUILTINS = {'full_like', 'solve', 'arange', 'atleast_1d', 'len', 'range', 'enumerate', 'min', 'max', 'abs', 'int', 'float', 'bool', 'empty', 'zeros', 'ones',
             'empty_like', 'zeros_like', 'sum', 'tuple', 'list', 'isinstance', 'print', 'zip', 'floor', 'sqrt',
             'exp', 'tanh', 'cosh', 'cos', 'sin', 'RuntimeError', 'ValueError', 'AssertionError', 'NotImplementedError',
             'str', 'reversed', 'sorted', 'all', 'any', 'prod', 'pi', 'mod', 'fabs', 'log', 'dict', 'set'}
-SPEC_BUILTINS = {'holds', 'valid', 'field_of', 'layout_of', 'same_content', 'distinct_bufs', 'same_buf', 'bufview', 'name_id', 'split', 'uknots', 'forall', 'exists', 'sum_', 'implies', 'and_', 'iff', 'old', 'ite_', 'shape', 'let', 'select', 'real', 'fdiv', 'fmod', 'trunc'}
+SPEC_BUILTINS = {'interp_val', 'holds', 'valid', 'field_of', 'layout_of', 'same_content', 'distinct_bufs', 'same_buf', 'bufview', 'name_id', 'split', 'uknots', 'forall', 'exists', 'sum_', 'implies', 'and_', 'iff', 'old', 'ite_', 'shape', 'let', 'select', 'real', 'fdiv', 'fmod', 'trunc'}
 
 import vf.execu as _execu
 _execu.BUILTINS = BUILTINS
@@ -160,7 +160,36 @@ class Engine(Exec):
                 return list(enumerate(args[0]))
             raise OutOfReach('enumerate outside for')
         if name == 'zip':
-            return list(zip(*args))
+            lists = []
+            for a in args:
+                if self.is_arr(a):
+                    if a.rank != 1 or not is_cint(a.shape[0]):
+                        raise OutOfReach('zip over an array of symbolic length')
+                    f = self.elem_fn(st, a)
+                    a = [simp(f((k,))) for k in range(a.shape[0])]
+                lists.append(list(a))
+            return list(zip(*lists))
+        if name == 'full_like':
+            a, val = args[0], args[1]
+            if self.is_arr(a):
+                return ExprArr(a.shape, lambda j, val=val: val, REAL)
+            return binop('Mult', val, Fraction(1)) if not is_sym(val) else val
+        if name == 'solve':
+            A, b = args
+            if not (self.is_arr(A) and A.rank == 2 and is_cint(A.shape[0]) and is_cint(A.shape[1])):
+                raise OutOfReach('linear solve with symbolic size')
+            n = A.shape[0]
+            c = self.new_arr(st, 1, [n], REAL, 'solve')
+            fa, fb, fc = self.elem_fn(st, A), self.elem_fn(st, b), self.elem_fn(st, c)
+            # assumed contract of numpy.linalg.solve: A c = b
+            for i in range(n):
+                acc = Fraction(0)
+                for j in range(n):
+                    acc = binop('Add', acc, binop('Mult', fa((i, j)), fc((j,))))
+                st.pc.append(zbool(compare('Eq', acc, fb((i,)))))
+            return c
+        if name == 'interp_val':
+            return self.interp_val(st, args[0], args[1])
         if name == 'reversed':
             return list(reversed(args[0]))
         if name == 'sum':
@@ -210,6 +239,32 @@ class Engine(Exec):
         if name in ('dict',):
             return {}
         raise OutOfReach('builtin %s' % name)
+
+    def interp_descr(self, st, ug):
+        """What a spline interpolates after compute_interpolant(ug, spl): a whole vector, or one row / column of a matrix."""
+        if isinstance(ug, ArrView) and ug.base.rank == 2 and ug.rank == 1:
+            kinds = [k for (k, v) in ug.spec]
+            M = SpecArr(st.heap[ug.base.aid], ug.base.shape, ug.base.elem)
+            if kinds == ['i', 's'] and is_cint(ug.spec[1][1]) and ug.spec[1][1] == 0:
+                return ('row', M, ug.spec[0][1])
+            if kinds == ['s', 'i'] and is_cint(ug.spec[0][1]) and ug.spec[0][1] == 0:
+                return ('col', M, ug.spec[1][1])
+        return ('vec', SpecArr(self.arr_term(st, ug), ug.shape, ug.elem), 0)
+
+    def interp_val(self, st, spl, x):
+        """interp_val(spl, x): value at x of the spline held by the Spline1D object (ghost: what it interpolates)."""
+        if isinstance(spl, tuple):
+            d = spl
+        else:
+            d = st.objs[spl.oid].get('gh_interp')
+            if d is None:
+                raise OutOfReach('spline object without interpolation ghost')
+        kind, M, e = d
+        if kind == 'vec':
+            f = V.uf('SVvec', M.term.sort(), REAL, REAL)
+            return f(M.term, ZR(x))
+        f = V.uf('SV' + kind, M.term.sort(), INT, REAL, REAL)
+        return f(M.term, ZI(e), ZR(x))
 
     def intern_name(self, s):
         """Layout names (strings) as integer ids in ghost contents."""
@@ -460,6 +515,20 @@ class Engine(Exec):
             g = SpecArr(z3.Const('%s!o%d' % (gn, V._arr_counter[0]), V.arr_sort(grank, REAL)), shp, REAL)
             post_st.env[gn] = g
             st.env[gn] = g
+        if c.creates:
+            from .verify import make_param
+            so = env.get('self')
+            for an, spec in c.creates.items():
+                if isinstance(spec, tuple) and spec and spec[0] == 'expr':
+                    val = self.ev_clause_val(spec[1], callee_st, cfr)
+                else:
+                    val = make_param(self, st, '%s_%d' % (an, so.oid), None, spec)
+                st.objs.setdefault(so.oid, {})[an] = val
+        if c.interp_src is not None:
+            sp, ug = env[c.interp_src[0]], env[c.interp_src[1]]
+            st.objs.setdefault(sp.oid, {})['gh_interp'] = self.interp_descr(callee_st, ug)
+        post_st.heap = dict(st.heap)
+        post_st.bufs = dict(st.bufs)
         cfr.spec_only = True
         selfobj = env.get('self')
         for an, ex in c.sets.items():
@@ -476,6 +545,10 @@ class Engine(Exec):
             return fv.ref == ckey
         if fv.kind == 'repo':
             rel, qual = fv.ref
+            c = self.ctx.contract_for(rel, qual)
+            return c is not None and ckey in getattr(c, 'implements', [])
+        if fv.kind == 'method':
+            rel, qual, obj = fv.ref
             c = self.ctx.contract_for(rel, qual)
             return c is not None and ckey in getattr(c, 'implements', [])
         return False
@@ -933,6 +1006,14 @@ class Engine(Exec):
         st.env.update(vals)
 
     def check_inv(self, lc, st, fr, node, kind):
+        splits = None
+        if kind == 'loop_inv_step' and lc.get('case_split'):
+            old = fr.spec_only
+            fr.spec_only = True
+            try:
+                splits = {pn: [self.ev_clause_val(t, st, fr) for t in terms] for pn, terms in lc['case_split'].items()}
+            finally:
+                fr.spec_only = old
         for i, cl in enumerate(lc.get('inv', [])):
             old = fr.spec_only
             fr.spec_only = True
@@ -940,7 +1021,7 @@ class Engine(Exec):
                 f = self.ev_clause(cl, st, fr)
             finally:
                 fr.spec_only = old
-            self.prove(st, fr, kind, f, node, clause='inv[%d]: %s' % (i, cl))
+            self.prove(st, fr, kind, f, node, clause='inv[%d]: %s' % (i, cl), splits=splits)
 
     def assume_inv(self, lc, st, fr):
         old = fr.spec_only
